@@ -158,6 +158,9 @@ def draw_op(rng, pose, kind, malformed):
                 if c.name in sel and rng.random() < 0.7 and c.points:
                     k = rng.randint(0 if rng.random() < 0.1 else 1, len(c.points))
                     pts[c.name] = rng.sample(list(c.points), k)
+                    # the same point requested twice: the result carries it twice (header and body must still agree)
+                    if pts[c.name] and rng.random() < 0.2:
+                        pts[c.name].insert(rng.randint(0, len(pts[c.name])), rng.choice(pts[c.name]))
         return {"op": kind, "components": sel, "points": pts}
     if kind == "remove_components":
         if bad or len(names) < 2:
